@@ -56,8 +56,10 @@ impl PartialEq for Object {
         if self.len() != other.len() {
             return false;
         }
-        // because we allow duplicated keys in object, so we need to compare by `get`
+        // because we allow duplicated keys in object, so we need to compare by `get`, and in both
+        // directions: a repeated key on one side must not hide a key that only the other side has
         self.iter().all(|(k, _)| other.get(&k) == self.get(&k))
+            && other.iter().all(|(k, _)| self.get(&k) == other.get(&k))
     }
 }
 
